@@ -2,6 +2,7 @@ import NasimModel.Generated.Shipped
 import NasimModel.Generated.GeneratorOk
 import NasimModel.Model.Plan
 import NasimModel.Proofs.Inv
+import NasimModel.Proofs.ReachFlat
 /-!
 # C16 — generated and shipped scenarios are solvable
 
@@ -16,12 +17,6 @@ Partial: a proof that *every* scenario the generator can return admits a plan (`
 attempted; see DESIGN.md §8 C16.
 -/
 namespace NASim
-
-/-- histories whose actions are taken from the scenario's flat action space (or the no-op) -/
-inductive ReachFlat (sc : Scenario) : State → Prop
-  | init : ReachFlat sc sc.init
-  | step {s} (i : Nat) (u : Rat) : ReachFlat sc s →
-      ReachFlat sc (perform sc.net s ((flatActions sc).getD i noopAction) u).1
 
 theorem runPlan_reach (sc : Scenario) (plan : List Nat) : ReachFlat sc (runPlan sc plan) := by
   unfold runPlan
